@@ -58,6 +58,9 @@ func baseFor(route string, e *acc.Env, now int64, n int) acc.Req {
 	}
 	q.Method, q.Target = acc.TargetFor(route, q.ID, q.Bid, q.Exp)
 	q.Label = "good"
+	if q.Auth.Claims != nil { // lifetimes from a minute to more than a day
+		q.Auth.Claims["exp"] = now + []int64{60, 60, 7200, 90000}[n%4]
+	}
 	return q
 }
 
@@ -71,7 +74,11 @@ func wrap(e *acc.Env, now int64, n int, x acc.Req) acc.Case {
 	g := acc.Req{Route: "session", ID: "after-" + name, Label: "baseline",
 		Auth: acc.SessionBearer(e.Cfg.Host, now, "after-"+name, "bkafter-"+name, []string{"read"})}
 	g.Method, g.Target = acc.TargetFor("session", g.ID, nil, nil)
-	ops := []acc.Op{{K: "req", Req: &ld}, {K: "req", Req: &la}, {K: "req", Req: &x}, {K: "req", Req: &ld}, {K: "req", Req: &la}, {K: "req", Req: &g}}
+	// X is presented a second time at the end (what was refused once must be refused again, what succeeded is judged
+	// again in the state it left): the seventh request
+	x2 := x
+	x2.Label = x.Label + "+again"
+	ops := []acc.Op{{K: "req", Req: &ld}, {K: "req", Req: &la}, {K: "req", Req: &x}, {K: "req", Req: &ld}, {K: "req", Req: &la}, {K: "req", Req: &g}, {K: "req", Req: &x2}}
 	return acc.Case{Name: name, T0: now, Ops: ops}
 }
 
@@ -160,7 +167,7 @@ func answeredWell(o acc.Out, method string) (bool, string) {
 }
 
 func oracle(c acc.Case, idx int, e *acc.Env, res *lib.Result) {
-	if len(c.Ops) != 6 || len(c.Outs) != 6 {
+	if len(c.Ops) != 7 || len(c.Outs) != 7 {
 		return
 	}
 	x := *c.Ops[iX].Req
@@ -199,6 +206,15 @@ func oracle(c acc.Case, idx int, e *acc.Env, res *lib.Result) {
 			}
 			bad(clause, fmt.Sprintf("known-good request #%d (%s) was not served: status %d %s", i, c.Ops[i].Req.Target, c.Outs[i].Status, why))
 			return
+		}
+	}
+	// the second presentation: answered, and never a success where the first one was refused for what the request IS
+	// (a repeat of a refused request finds the same state, so it has to be refused again)
+	if o2 := c.Outs[6]; true {
+		if ok, why := answeredWell(o2, x.Method); !ok {
+			bad("always-answers", "second presentation of the same request: "+why)
+		} else if !is2xx && o2.Status >= 200 && o2.Status < 300 {
+			bad("success-only-if-valid", fmt.Sprintf("the same request was refused (%d) the first time and answered %d the second time", o.Status, o2.Status))
 		}
 	}
 	if !is2xx {
@@ -453,6 +469,57 @@ func work(a lib.Args) {
 		}
 	}
 
+	if a.Replay == "" {
+		// (15) which private claims the token names x where the clock stands in its window, on every endpoint
+		k := 0
+		for _, cs := range acc.ClaimShapes() {
+			for _, w := range acc.Windows() {
+				r := rng.Fork()
+				e := envs[r.Bool()]
+				now := int64(1600000000 + r.Intn(200000000))
+				x := baseFor(routes[k%len(routes)], e, now, n)
+				if x.Route == "session" {
+					x.ID = "some-topic"
+					x.Method, x.Target = acc.TargetFor("session", x.ID, nil, nil)
+				}
+				x.Auth = acc.Shaped(x.Auth, cs, w, now)
+				add(e, now, x)
+				k++
+			}
+		}
+		// (16) the scope vocabulary on the endpoints that read scopes: every near miss of the two keywords (padding,
+		// case, prefixes such as "relay" and "relay:", halves, separators, Unicode forms), alone and between good scopes
+		for i, la := range acc.ScopeLookalikes {
+			rts := []string{routes[1+i%5]}
+			if strings.HasPrefix("relay:admin", la) || strings.HasPrefix("relay:stats", la) || strings.Contains(la, ":") && len(la) <= 7 {
+				rts = routes[1:] // exact prefixes of a keyword and separator corners: on all five
+			}
+			for _, rt := range rts {
+				r := rng.Fork()
+				e := envs[r.Bool()]
+				now := int64(1600000000 + r.Intn(200000000))
+				x := baseFor(rt, e, now, n)
+				if i%2 == 0 {
+					x.Auth.Claims["scopes"] = []string{la}
+				} else {
+					x.Auth.Claims["scopes"] = []string{"read", la, "write"}
+				}
+				x.Auth.Label = "scope-vocabulary"
+				add(e, now, x)
+			}
+		}
+		// (17) the Authorization header sent as several identical lines (a retrying client / proxy)
+		for _, rt := range routes {
+			r := rng.Fork()
+			e := envs[r.Bool()]
+			now := int64(1600000000 + r.Intn(200000000))
+			x := baseFor(rt, e, now, n)
+			tok, _ := x.Auth.Build(e.Secret)
+			x.Headers = "Authorization: " + tok + "\r\nAuthorization: " + tok + "\r\n"
+			x.Label = "request-headers:authorization-repeated"
+			add(e, now, x)
+		}
+	}
 	if a.Replay == "" {
 		// (14) the request-line dimension: methods x targets at the corners of the router (Model/Routing.v decides what
 		// each line must be answered; Go's own url / path libraries give the oracle's reading)
